@@ -56,6 +56,7 @@ type FnContract struct {
 	Loops    map[int]*LoopContract
 	Calls    []CallSpec
 	LockInvs []LockInv
+	Aliases  []AliasSpec
 	Counts   []*Clause // postconditions over count(...) — same as ensures but kept apart for naming
 	PanicsIf []*Clause
 	Ghost    []GhostAssign
@@ -91,7 +92,12 @@ type GlobalSpecs struct {
 }
 
 var clauseKw = map[string]bool{"func": true, "arith": true, "trusted": true, "pure": true, "requires": true, "ensures": true, "modifies": true, "loop": true,
-	"invariant": true, "callsite": true, "lemma": true, "axiom": true, "inline": true, "panics": true, "option": true, "unroll": true, "callers": true, "stores": true, "spec": true, "ghost": true, "lockinv": true, "lockowns": true}
+	"invariant": true, "callsite": true, "lemma": true, "axiom": true, "inline": true, "panics": true, "option": true, "unroll": true, "callers": true, "stores": true, "spec": true, "ghost": true, "lockinv": true, "lockowns": true, "alias": true}
+
+// AliasSpec: a name for a local variable given by its role, not by what the source calls it
+type AliasSpec struct{ Name, Param, Callee string }
+
+var aliasRe = regexp.MustCompile(`^\s*(\w+)\s*=\s*pointee\(\s*\$(\w+)\s+of\s+(.+)\)\s*$`)
 
 var nameRe = regexp.MustCompile(`^([A-Za-z_][A-Za-z0-9_\-]*):\s+(.*)$`)
 
@@ -364,6 +370,14 @@ func (w *World) readContractFile(path string) error {
 				return err
 			}
 			curLoop.Invariants = append(curLoop.Invariants, c)
+		case "alias":
+			// alias NAME = pointee($PARAM of CALLEE): NAME denotes the variable whose address the function passes as
+			// parameter PARAM to (its first call of) CALLEE, whatever that variable is called in the source
+			m := aliasRe.FindStringSubmatch(l.rest)
+			if m == nil {
+				return fmt.Errorf("line %d: alias NAME = pointee($PARAM of CALLEE)", l.line)
+			}
+			cur.Aliases = append(cur.Aliases, AliasSpec{Name: m[1], Param: m[2], Callee: strings.TrimSpace(m[3])})
 		case "lockinv", "lockowns":
 			sep := " protects "
 			if l.kw == "lockowns" {
